@@ -17,6 +17,17 @@ def one(patch):
         r = subprocess.run([PY, "-m", "pytest", "-q", "-p", "no:cacheprovider", "-x"], cwd=tmp, env=env, capture_output=True, text=True)
         if "75 passed" not in r.stdout:
             out.append("TESTS NOT GREEN: " + r.stdout.strip().splitlines()[-1][:100])
+        # a repaired refactoring comes with the demo of the defect it no longer has: it must pass
+        demo = os.path.join(os.path.dirname(os.path.dirname(patch)), "GIVEN", os.path.basename(patch).split(".")[0] + ".demo.py")
+        if os.path.exists(demo):
+            wd = os.path.join(tmp, "_demo"); os.makedirs(wd)
+            env = dict(os.environ, PYTHONPATH=tmp); env.pop("PYSNARK_BACKEND", None)
+            try:
+                r = subprocess.run([PY, demo], cwd=wd, env=env, capture_output=True, text=True, timeout=600)
+                if r.returncode != 0:
+                    out.append("DEMO STILL FAILS (exit %d): %s" % (r.returncode, (r.stdout + r.stderr).strip().splitlines()[-1][:160]))
+            except subprocess.TimeoutExpired:
+                out.append("DEMO TIMEOUT")
         env = dict(os.environ, PYSNARK_SA_EVIDENCE_DIR=os.path.join(tmp, "ev"))
         for i in range(1, 21):
             p = "C%02d" % i
